@@ -103,9 +103,73 @@ def frames(rng, nframes, declare=True, maxw=8, maxh=5, mismatch=False):
         if rng.random() < 0.2:
             # the application also talks to the terminal itself between two draws (nothing that prints)
             for _ in range(rng.choice([1, 1, 2, 3])):
-                parts.append(rng.choice(["t sv", "t rs", "t hc", "t sc", "t cl", "t rv", "t mv %d %d" % (rng.randrange(w), rng.randrange(h)),
+                parts.append(rng.choice(["t sv", "t rs", "t hc", "t sc", "t cl", "t rv", t_input(rng, w, h), "t mv %d %d" % (rng.randrange(w), rng.randrange(h)),
                                          "t mv %d %d" % (w - 1, h - 1), "t mv 0 0"]))
     return " ; ".join(parts)
+
+
+def t_input(rng, w, h):
+    """input arriving on the screen's terminal between two draws: cursor position reports (= modified F3 on xterm) inside
+    the size, keys, a mouse report"""
+    data = rng.choice([b"\x1b[%d;%dR" % (rng.randrange(1, h + 1), rng.randrange(1, w + 1)), b"\x1b[1;2R", b"\x1b[1;5R", b"\x1b[A", b"a", b"\x1b[M !!"])
+    return "t in %d %s" % (len(data), " ".join(str(b) for b in data))
+
+
+def reshapes(rng, n):
+    """consecutive draws of canvases of DIFFERENT shape whose cells, read row by row, form the same sequence (4x1 'abcd' then
+    2x2 'ab/cd'; a uniform 2x3 then 3x2; …), followed by a real edit: a draw that compares the cell sequences only"""
+    out = []
+    for _ in range(n):
+        area = rng.choice([2, 4, 6, 8, 12])
+        shapes = [(d, area // d) for d in range(1, area + 1) if area % d == 0]
+        seq = [[5, 65 + (i % 26 if rng.random() < 0.8 else 0), 0, 0] + tg.DEFAULT_ATTR for i in range(area)]
+        if rng.random() < 0.3:
+            seq = [seq[0]] * area                                   # uniform fill
+        if rng.random() < 0.3:
+            seq = [seq[0]] + [[5, 32, 0, 0] + tg.DEFAULT_ATTR] * (area - 1)     # only the top-left cell set
+        parts = ["S %d" % rng.choice([0, 16])]
+        prev = None
+        for f in range(rng.choice([2, 3, 4])):
+            w, h = rng.choice([s_ for s_ in shapes if s_ != prev] or shapes)
+            prev = (w, h)
+            parts.append("tsz %d %d" % (w, h))
+            parts.append(rng.choice(["cv %d %d", "nc %d %d", "rz %d %d"]) % (w, h))
+            for i, e in enumerate(seq):
+                parts.append(px(i % w, i // w, e))
+            parts.append("dr")
+            if rng.random() < 0.5:
+                i = rng.randrange(area)
+                seq = list(seq)
+                seq[i] = [5, 97 + rng.randrange(26), 0, 0] + tg.DEFAULT_ATTR
+                parts.append(px(i % w, i // w, seq[i]))
+                parts.append("dr")
+        out.append(" ; ".join(parts))
+    return out
+
+
+def neighbour_after_move(rng, n):
+    """the application moves the cursor (or the terminal answers a query) between two draws, and the next draw's first
+    changed cell is the right-hand neighbour of the last cell the previous draw wrote: state a draw keeps about 'where I
+    stopped' must not outlive the draw"""
+    out = []
+    for _ in range(n):
+        w, h = rng.choice([(4, 3), (5, 2), (8, 4), (3, 3), (10, 1)])
+        x, y = rng.randrange(w - 1), rng.randrange(h)
+        parts = ["S %d" % rng.choice([0, 16]), "tsz %d %d" % (w, h), "cv %d %d" % (w, h)]
+        # frame 1: some cells up to and including (x, y) - the last one written
+        for (cx, cy) in sorted({(rng.randrange(w), rng.randrange(y + 1)) for _ in range(rng.choice([0, 1, 3]))} | {(x, y)}, key=lambda p: (p[1], p[0])):
+            if (cy, cx) <= (y, x):
+                parts.append(px(cx, cy, [5, 65 + cx, 0, 0] + tg.DEFAULT_ATTR))
+        parts.append("dr")
+        parts.append(rng.choice(["t mv %d %d" % (rng.randrange(w), rng.randrange(h)), "t mv 0 0", "t sv", "t rs", t_input(rng, w, h),
+                                 "t mv %d %d" % (w - 1, h - 1)]))
+        if rng.random() < 0.3:
+            parts.append("t mv %d %d" % (rng.randrange(w), rng.randrange(h)))
+        parts.append(px(x + 1, y, [5, 97 + x, 0, 0] + tg.DEFAULT_ATTR))
+        parts.append("dr")
+        parts.append("dr")
+        out.append(" ; ".join(parts))
+    return out
 
 
 def single_cell_edits(w, h, cfgs):
